@@ -349,6 +349,12 @@ def run(tier: str, seed: int) -> int:
                 _cases.append(dict(id=f"{_nm}/{_D}/{_N}/{_i}", name="metrics." + _nm, args=[_u, _v], kw=_kw))
         _cases.append(dict(id=f"correlation/{_D}/{_N}", name="metrics.correlation", args=[_u, _v], kw={}))
     _xs.compare(run_, PID, _cases, work + "_xs")
+    # the composed machine (spec/Session.tla): multi-step API sessions generated by TLC -simulate, replayed call by call; this check
+    # reports the mismatches of the operations it owns (metric)
+    from .. import session
+    import jax.numpy as _jnp
+    import exponax as _ex
+    session.run_for(run_, tier, seed, _ex, _jnp, ['metric'], PID)
     return run_.finish()
 
 
